@@ -53,9 +53,23 @@ def run_case(case, backend="main"):
 
     srcs = {}
 
+    class ValSrc:
+        """A source with VALUE equality (like a tuple or a frozen dataclass): every use is a fresh, equal object;
+        registration and routing go by ==/hash (set membership), not by identity."""
+        def __init__(self, n):
+            self.n = n
+
+        def __eq__(self, other):
+            return isinstance(other, ValSrc) and other.n == self.n
+
+        def __hash__(self):
+            return hash(("ValSrc", self.n))
+
     def src_of(o):
         if o is None:
             return None
+        if o % 3 == 0:
+            return ValSrc(o)
         if o not in srcs:
             # every other source object is "falsy" (an empty container-like object): routing must go by identity
             body = {"__len__": (lambda self: 0)} if o % 2 == 0 else {}
@@ -81,6 +95,8 @@ def run_case(case, backend="main"):
         return 999
 
     def src_id(o):
+        if isinstance(o, ValSrc):
+            return [o.n]
         for k, v in srcs.items():
             if v is o:
                 return [k]
